@@ -142,9 +142,10 @@ def battery(o, probes, ppts):
 class MoveMachine(e2.Machine):
     prop = 'C07'
 
-    def __init__(self, kind, idx, base, depth):
+    def __init__(self, kind, idx, base, depth, mode='float'):
         self.kind, self.base = kind, base
-        self.name = '%s#%d' % (kind, idx)
+        self.mode = mode          # 'int': the base object is built from Python int coordinates
+        self.name = '%s#%d%s' % (kind, idx, '' if mode == 'float' else '/int')
         self.max_depth = depth
         self.probes0 = PROBES
         self.ppts0 = probe_points(base)
@@ -169,7 +170,11 @@ class MoveMachine(e2.Machine):
         return t
 
     def build(self, hist):
-        recv = lib.to_lib(self.base)
+        lib.MODE = self.mode
+        try:
+            recv = lib.to_lib(self.base)
+        finally:
+            lib.MODE = 'float'
         ret = None
         last_eq = None
         t = (0, 0, 0)
@@ -212,7 +217,11 @@ class MoveMachine(e2.Machine):
 
     def fresh(self, t):
         if t not in self._fresh_cache:
-            f = lib.to_lib(translate(self.base, t))
+            lib.MODE = self.mode
+            try:
+                f = lib.to_lib(translate(self.base, t))
+            finally:
+                lib.MODE = 'float'
             probes = [lib.to_lib(translate(p, t)) for p in self.probes0]
             ppts = [lib.P(X.add(p, t)) for p in self.ppts0]
             self._fresh_cache[t] = (battery(f, probes, ppts), lib.call(hash, f))
@@ -278,6 +287,8 @@ def machines(tier):
         cls = 'polygon' if kind == 'ConvexPolygon' else ('polyhedron' if kind == 'ConvexPolyhedron' else 'flat')
         for i, b in enumerate(bases):
             ms.append(MoveMachine(kind, i, b, DEPTHS[tier][cls]))
+        # the axis-aligned base once more with Python int coordinates (moved by fractional vectors as well)
+        ms.append(MoveMachine(kind, 0, bases[0], max(2, DEPTHS[tier][cls] - 1), mode='int'))
     return ms
 
 
@@ -294,8 +305,9 @@ def run(tier, seed):
 
 def replay(family, scene):
     kind, base, hist = core.dec(scene)
+    mode = 'int' if '/int' in str(family) else 'float'
     cls = 'polygon' if kind == 'ConvexPolygon' else ('polyhedron' if kind == 'ConvexPolyhedron' else 'flat')
-    m = MoveMachine(kind, 0, base, len(hist))
+    m = MoveMachine(kind, 0, base, len(hist), mode=mode)
     viols = []
     for i in range(len(hist) + 1):
         h = tuple(hist[:i])
